@@ -120,6 +120,28 @@ def narrow_integer_arguments(res, rng, C):
                 fail(res, 'value changes when a whole-number argument is a narrow numpy integer (%s, argument %d)' % (ty.__name__, k), name, tuple(whole), [float(got), float(want)])
 
 
+def tiny_frequencies(res, rng, C):
+    """small positive frequencies (a grid that starts at 1e-8 'to avoid zero'): every wave spectrum tends to 0 there and must return a
+    finite non-negative number, not nan (0 * inf when the power of w underflows and the exponential cut-off does too)"""
+    for name, f in C.items():
+        if name not in ('piersonMoskowitzSpectrum', 'jonswapSpectrum', 'isscSpectrum', 'gaussianSwellSpectrum', 'ochiHubbleSpectrum'):
+            continue
+        for _ in range(6):
+            args = list(sample_args(rng, name))
+            args[0] = rng.choice([1e-3, 1e-5, 1e-8, 1e-12])
+            if name == 'ochiHubbleSpectrum':
+                args[5], args[6] = rng.choice([(7.0, 10.0), (3.0, 1.5), (10.0, 10.0), (0.8, 2.5)])
+            res.evaluations += 1
+            res.stat('tiny_positive_frequency')
+            try:
+                v = f(*args)
+            except Exception as e:  # noqa
+                fail(res, 'admissible parameters rejected: ' + type(e).__name__ + ' ' + str(e)[:80], name, tuple(args), None)
+                continue
+            if not (v >= 0) or v == float('inf'):
+                fail(res, 'non-negative (finite) at a small positive frequency', name, tuple(args), float(v))
+
+
 def explore(res, rng, n, areas):
     lsm = impl()
     C = calls(lsm)
@@ -151,6 +173,7 @@ def explore(res, rng, n, areas):
                 except Exception as e:  # noqa
                     fail(res, 'admissible parameters rejected when passed as numpy scalars: ' + type(e).__name__ + ' ' + str(e)[:60], name, a32, None)
     narrow_integer_arguments(res, rng, C)
+    tiny_frequencies(res, rng, C)
     gen.validate(res, 'Wave', [c for c in tv if c[0] in ('piersonMoskowitzSpectrum', 'jonswapSpectrum', 'isscSpectrum',
                                                           'gaussianSwellSpectrum', 'ochiHubbleSpectrum')], rtol=1e-9)
     gen.validate(res, 'Wind', [c for c in tv if c[0] not in ('piersonMoskowitzSpectrum', 'jonswapSpectrum', 'isscSpectrum',
